@@ -40,25 +40,27 @@ def is_call(x, *suffixes):
         root = root.value
     if not (isinstance(f, ast.Attribute) and isinstance(root, ast.Name)) or root.id in ('self', 'cls'):
         return False
-    n2 = _closed_callee(x)
-    return n2 is not None and any(n2 == s or n2.endswith('.' + s) for s in suffixes)
+    return any(n2 == s or n2.endswith('.' + s) for n2 in _closed_callee(x) for s in suffixes)
 
 
 def _closed_callee(call):
-    """dotted callee of a call with the receiver in closed form (cached on the node); None if it is the same as written"""
-    c = getattr(call, '_closed_callee', False)
-    if c is not False:
+    """dotted callees of a call with the receiver in (partially) closed form, cached on the node; [] if it is the same as written"""
+    c = getattr(call, '_closed_callee', None)
+    if c is not None:
         return c
-    out = None
+    out = []
     fn = _fn_of(call)
     if fn is not None:
-        try:
-            recv = fn.canon.expr(call.func.value)
-            d = dotted(recv)
-            if d and d != dotted(call.func.value):
-                out = d + '.' + call.func.attr
-        except Exception:       # noqa
-            out = None
+        # resolved one definition at a time: `p = req.params; p.update()` is `req.params.update` before it is
+        # `self.request_template.copy().params.update`
+        for depth in (1, 2, 3, 12):
+            try:
+                recv = fn.canon.expr(call.func.value, depth=depth)
+                d = dotted(recv)
+                if d and d != dotted(call.func.value) and d + '.' + call.func.attr not in out:
+                    out.append(d + '.' + call.func.attr)
+            except Exception:       # noqa
+                break
     try:
         call._closed_callee = out
     except Exception:       # noqa
